@@ -53,6 +53,16 @@ CHECKS = {
     text="Each transfer function is interpreted from source with integers concrete and every floating-point value an exact rational function of grid-spacing symbols, on fine/coarse grid pairs covering every node class (boundary, next-to-boundary, interior; odd/even in each direction; circle and radial section; both boundary modes; differing splits). The extracted weight tables give: restriction == prolongation^T for both pairs, optimised == reference for all four operators, copy at coarse nodes and injection o prolongation = id, convex weights summing to one, and the first-moment (linear reproduction) conditions for arbitrary spacings and for midpoint grids. The off-midpoint moment failure the property records is re-derived on every run and listed as a known finding.",
     note="Trusted: clang front end, gmgir lowering, own IR interpreter, identity testing by exact rational evaluation of the extracted DAGs at 4 pseudo-random points (error probability < 1e-17; a non-zero value is a definite witness). Not decided: thread-count independence (C11), rounding.",
     ref="DESIGN.md section 4 / C08, 3.4"),
+ "C03": dict(
+    level="proof", technique="static analysis: symbolic interpretation of residual give/take and the LevelCache constructors into exact matrix tables (rational-function DAGs); identities by polynomial identity testing on the tables",
+    text="The residual operator in both strategies and both LevelCache constructors are interpreted from source (integers concrete; floating-point values exact rational functions of grid-spacing/coordinate symbols and uninterpreted geometry/coefficient function applications) on representative grids covering both boundary modes, all circle/radial splits incl. degenerate ones, odd/even sizes. Extracted matrices are compared entry by entry: give == take; the four cache-flag combinations agree (coefficient provenance, incl. the path-correlated coeff_alpha); Dirichlet rows are the identity, across-origin rows the 7-point stencil with the antipodal column, interior rows 9-point; row sums equal the mass term; and a coarse cache built from the finer level equals a fresh evaluation at the coarse nodes for every array and flag combination. Tests compare a few implementations numerically on one grid with one cache setting; this covers every node class and every provider site.",
+    note="Trusted: clang front end, gmgir lowering, own IR interpreter, identity testing by exact rational evaluation of the DAGs at 4 pseudo-random points (error < 1e-17; non-zero = definite witness). Hypothesis: admissible grids (antipodal angle partners => angular spacing period ntheta/2). Not decided: rounding-level agreement of the computed vectors.",
+    ref="DESIGN.md section 4 / C03, 3.4"),
+ "C05": dict(
+    level="proof", technique="static analysis: symbolic interpretation of the residual operators into exact matrix tables; symmetry decided by identity testing of A[p,q]-A[q,p]",
+    text="Decides symmetry: on the same extracted tables as C03, A[p,q] == A[q,p] for every pair of non-Dirichlet nodes, for both strategies, with all four Jacobian entries independent (non-orthogonal mappings, mixed terms present), non-uniform spacings and the across-origin coupling; plus positivity of every diagonal entry (necessary for definiteness). Positive definiteness itself depends on geometry values (arr*att > art^2/4) and is not decided.",
+    note="Trusted: as C03. Not decided: positive definiteness; the smoothers' line blocks (symmetry before one-sided storage) are examined with C06 when built.",
+    ref="DESIGN.md section 4 / C05"),
 }
 NA = {
  "C02": "order of accuracy is a limit statement about numerical error under refinement; no clause is visible in the shape of the code (its code-shaped preconditions are checked under C03/C10/C19)",
